@@ -9,6 +9,7 @@ import (
 
 	tikverr "github.com/tikv/client-go/v2/error"
 	"github.com/tikv/client-go/v2/kv"
+	"github.com/tikv/client-go/v2/tikv"
 	"github.com/tikv/client-go/v2/txnkv/transaction"
 	"github.com/tikv/client-go/v2/verifrt/sched"
 )
@@ -19,6 +20,7 @@ type Mode struct {
 	Async       bool
 	OnePC       bool
 	Causal      bool
+	Pipelined   bool // pipelined DML transaction (flushes its buffer to the store while running)
 }
 
 func (m Mode) String() string {
@@ -38,6 +40,9 @@ func (m Mode) String() string {
 	}
 	if m.Causal {
 		s += "-causal"
+	}
+	if m.Pipelined {
+		s += "-pipelined"
 	}
 	return s
 }
@@ -221,7 +226,11 @@ func (c *Client) runTxn(h *History, idx int, p Program, rec *TxnRec) bool {
 	}
 	rec.Outcome = "open"
 	rec.BeginCallSeq = h.next()
-	txn, err := c.Store.Begin()
+	var bopts []tikv.TxnOption
+	if p.Mode.Pipelined {
+		bopts = append(bopts, tikv.WithPipelinedTxn(1, 1, 0))
+	}
+	txn, err := c.Store.Begin(bopts...)
 	if err != nil {
 		rec.OpErrs = append(rec.OpErrs, "begin:"+errClass(err))
 		rec.Outcome = "failed"
@@ -230,14 +239,31 @@ func (c *Client) runTxn(h *History, idx int, p Program, rec *TxnRec) bool {
 	c.open = append(c.open, txn)
 	rec.BeginRetSeq = h.next()
 	rec.StartTS = txn.StartTS()
-	txn.SetPessimistic(p.Mode.Pessimistic)
-	txn.SetEnableAsyncCommit(p.Mode.Async)
-	txn.SetEnable1PC(p.Mode.OnePC)
-	txn.SetCausalConsistency(p.Mode.Causal)
+	if !p.Mode.Pipelined { // a pipelined transaction rejects these setters
+		txn.SetPessimistic(p.Mode.Pessimistic)
+		txn.SetEnableAsyncCommit(p.Mode.Async)
+		txn.SetEnable1PC(p.Mode.OnePC)
+		txn.SetCausalConsistency(p.Mode.Causal)
+	}
 	ctx := context.Background()
 	own := rec.Writes
 	for oi, op := range p.Ops {
+		if p.Mode.Pipelined && op.Kind != "commit" {
+			// memory-only calls have no seam of their own: make each call a scheduling point so that a
+			// running flush can complete before or after it
+			if d := sched.Point(c.ID, sched.KAPI, "op:"+op.Kind, nil); d.Kind == sched.Abort {
+				return false
+			}
+		}
 		switch op.Kind {
+		case "flush":
+			if _, err := txn.GetMemBuffer().Flush(true); err != nil {
+				rec.OpErrs = append(rec.OpErrs, "flush:"+errClass(err))
+			}
+		case "flushwait":
+			if err := txn.GetMemBuffer().FlushWait(); err != nil {
+				rec.OpErrs = append(rec.OpErrs, "flushwait:"+errClass(err))
+			}
 		case "get":
 			r := ReadRec{Kind: "get", Keys: []string{op.Key}, Got: map[string]string{}, Own: cloneOwn(own)}
 			v, err := txn.Get(ctx, []byte(op.Key))
